@@ -34,6 +34,44 @@ class Raised:
         self.exc = exc
 
 
+HEAP_AXIOMS = {}      # name of an initial heap array -> well-formedness axiom (R7)
+ALLOC0 = z3.Int("alloc0")
+
+
+def heap_axiom(key, arr):
+    """Every reference stored in the *initial* heap is None or allocated (< alloc0)."""
+    x = z3.Int("x!wf")
+    rng = arr.sort().range()
+    if key.startswith("f:") and rng == z3.IntSort() and _is_ref_key(key):
+        return z3.ForAll([x], z3.Implies(z3.And(x > 0, x < ALLOC0), z3.And(arr[x] >= 0, arr[x] < ALLOC0)))
+    if key.startswith("list:") and _is_ref_key(key):
+        i = z3.Int("i!wf")
+        return z3.ForAll([x, i], z3.Implies(z3.And(x > 0, x < ALLOC0, i >= 0, i < z3.Length(arr[x])),
+                                            z3.And(arr[x][i] >= 0, arr[x][i] < ALLOC0)))
+    if key.startswith("dval:") and _is_ref_key(key):
+        k = z3.Const("k!wf", rng.domain())
+        return z3.ForAll([x, k], z3.Implies(z3.And(x > 0, x < ALLOC0), z3.And(arr[x][k] >= 0, arr[x][k] < ALLOC0)))
+    return None
+
+
+def _is_ref_key(key):
+    from .types import parse_ty
+    try:
+        if key.startswith("f:"):
+            cls, fname = key[2:].split(".", 1)
+            if fname.endswith("?") or fname.endswith("!") or "#" in fname:
+                return False
+            fty, _ = S.find_field(cls, fname)
+            return fty is not None and fty.is_ref
+        if key.startswith("list:"):
+            return parse_ty(key[5:]).is_ref
+        if key.startswith("dval:"):
+            return parse_ty(key[5:].split("|")[1]).is_ref
+    except Exception:
+        return False
+    return False
+
+
 class State:
     def __init__(self):
         self.env: dict[str, V] = {}
@@ -68,6 +106,8 @@ class State:
         if a is None:
             a = z3.Const("H0_" + key, z3.ArraySort(z3.IntSort(), sort))
             self.heap[key] = a
+            if ("H0_" + key) not in HEAP_AXIOMS:
+                HEAP_AXIOMS["H0_" + key] = heap_axiom(key, a)
         return a
 
     # fields
